@@ -123,13 +123,18 @@ def hashable_fields(fields):
     return all(ok(f["t"]) for f in fields)
 
 
+def cloneable(fields):
+    """DeduplicatedString implements nothing but the codec traits: records that hold one cannot derive Clone"""
+    return "dstr" not in json.dumps([f["t"] for f in fields])
+
+
 def render_struct(gen, name, ty):
     fields = ty["fields"]
     # fields spelled "tmpl" get their type through a `$t:ty` fragment of a macro_rules template
     tmpl = [f for f in fields if f["t"]["k"] == "opt" and spelling(f) == "tmpl"]
     gen.tmpl_idx = {id(f): i for i, f in enumerate(tmpl)}
     # (records of plain fields can be elements of hash containers)
-    src = ["#[derive(desert_macro::BinaryCodec, PartialEq, Eq, Hash)]" if hashable_fields(fields) else "#[derive(desert_macro::BinaryCodec)]"]
+    src = ["#[derive(desert_macro::BinaryCodec, Clone, PartialEq, Eq, Hash)]" if hashable_fields(fields) else ("#[derive(desert_macro::BinaryCodec, Clone)]" if cloneable(fields) else "#[derive(desert_macro::BinaryCodec)]")]
     ev = evolution_attr(gen, fields, ty["steps"])
     if ev:
         src.append(ev)
@@ -160,7 +165,8 @@ def render_enum(gen, name, ty):
     h = int(hashlib.sha1(key(ty).encode()).hexdigest()[4:8], 16)
     units = [i for i, v in enumerate(ty["variants"]) if v["shape"] == "unit" and not v["tr"]]
     default_at = units[h % len(units)] if units and h % 2 == 0 else None
-    src = ["#[derive(desert_macro::BinaryCodec, Default)]" if default_at is not None else "#[derive(desert_macro::BinaryCodec)]"]
+    cl = ", Clone" if all(cloneable(v["fields"]) for v in ty["variants"]) else ""
+    src = ["#[derive(desert_macro::BinaryCodec%s, Default)]" % cl if default_at is not None else "#[derive(desert_macro::BinaryCodec%s)]" % cl]
     if ty["sorted"]:
         src.append("#[sorted_constructors]")
     src.append("pub enum %s {" % name)
@@ -213,7 +219,7 @@ def render_enum(gen, name, ty):
 
 
 NAMED_SRC = {
-    "Throwable": '''#[derive(desert_macro::BinaryCodec)]
+    "Throwable": '''#[derive(desert_macro::BinaryCodec, Clone)]
 pub struct Throwable { pub class_name: String, pub message: String,
     pub stack_trace: Vec<(Option<String>, Option<String>, Option<String>, dv::VarU32, )>, pub cause: Option<Box<Throwable>> }
 impl dv::ModelType for Throwable {
@@ -222,20 +228,20 @@ impl dv::ModelType for Throwable {
     fn to_model(&self) -> serde_json::Value { serde_json::json!([20, dv::ModelType::to_model(&self.class_name), dv::ModelType::to_model(&self.message),
         dv::ModelType::to_model(&self.stack_trace), dv::ModelType::to_model(&self.cause)]) }
 }''',
-    "RecList": '''#[derive(desert_macro::BinaryCodec)]
+    "RecList": '''#[derive(desert_macro::BinaryCodec, Clone)]
 pub struct RecList { pub v: u8, pub next: Option<Box<RecList>> }
 impl dv::ModelType for RecList {
     fn from_model(v: &serde_json::Value) -> Self { let a = dv::model::arr(v); RecList { v: dv::ModelType::from_model(&a[1]), next: dv::ModelType::from_model(&a[2]) } }
     fn to_model(&self) -> serde_json::Value { serde_json::json!([20, dv::ModelType::to_model(&self.v), dv::ModelType::to_model(&self.next)]) }
 }''',
-    "RecTree": '''#[derive(desert_macro::BinaryCodec)]
+    "RecTree": '''#[derive(desert_macro::BinaryCodec, Clone)]
 #[evolution(FieldAdded("kids", Vec::new()))]
 pub struct RecTree { pub v: u8, pub kids: Vec<RecTree> }
 impl dv::ModelType for RecTree {
     fn from_model(v: &serde_json::Value) -> Self { let a = dv::model::arr(v); RecTree { v: dv::ModelType::from_model(&a[1]), kids: dv::ModelType::from_model(&a[2]) } }
     fn to_model(&self) -> serde_json::Value { serde_json::json!([20, dv::ModelType::to_model(&self.v), dv::ModelType::to_model(&self.kids)]) }
 }''',
-    "RecEnum": '''#[derive(desert_macro::BinaryCodec)]
+    "RecEnum": '''#[derive(desert_macro::BinaryCodec, Clone)]
 pub enum RecEnum { Leaf(u8), Node { l: Box<RecEnum>, r: Box<RecEnum> } }
 impl dv::ModelType for RecEnum {
     fn from_model(v: &serde_json::Value) -> Self { let a = dv::model::arr(v); match dv::model::int(&a[1]) {
